@@ -658,8 +658,9 @@ def check_transitions(ctx, st, entry, text, origin, spec):
 
 def check_tasks_kept(ctx, st, entry, text, origin, spec):
     """Statement "an accepted definition … is the same definition (tasks, …)": every key of the `tasks` section of
-    an accepted workflow is a task of the specification.  Model side (Tie B of `specListMembers`): the keys
-    `BaseSpecList.__init__` instantiates, through the driver."""
+    an accepted workflow is a task of the specification; every member of the `workflows` / `actions` section of an
+    accepted workbook and of an accepted workflow / action list is a member of the specification.  Model side
+    (Tie B of `specListMembers` / `listSpecMembers`): the keys the constructors instantiate, through the driver."""
     from harness import schema_stream as S
     try:
         d = st['sp'].parse_yaml(text)
@@ -667,30 +668,40 @@ def check_tasks_kept(ctx, st, entry, text, origin, spec):
         return
     if not isinstance(d, dict):
         return
+    # (label, written dict, keys of the specification, top-level list?)
+    sections = []
+    wfs = []
     if entry == 'parse.wf':
+        sections.append(('<workflow list>', d, [w.get_name() for w in spec.get_workflows()], True))
         wfs = [(w.get_name(), w, d.get(w.get_name())) for w in spec.get_workflows()]
-    elif entry == 'parse.wb' and spec.get_workflows():
-        src = d.get('workflows') if isinstance(d.get('workflows'), dict) else {}
-        wfs = [(w.get_name(), w, src.get(w.get_name())) for w in spec.get_workflows()]
-    else:
-        return
+    elif entry == 'parse.act':
+        sections.append(('<action list>', d, [a.get_name() for a in spec.get_actions()], True))
+    elif entry == 'parse.wb':
+        if isinstance(d.get('workflows'), dict) and spec.get_workflows():
+            sections.append(('workflows', d['workflows'], list(spec.get_workflows().item_keys()), False))
+            wfs = [(w.get_name(), w, d['workflows'].get(w.get_name())) for w in spec.get_workflows()]
+        if isinstance(d.get('actions'), dict) and spec.get_actions():
+            sections.append(('actions', d['actions'], list(spec.get_actions().item_keys()), False))
     for wname, w, src in wfs:
-        if not isinstance(src, dict) or not isinstance(src.get('tasks'), dict):
-            continue
-        written = [k for k in src['tasks']]
-        got = list(w.get_tasks().item_keys())
+        if isinstance(src, dict) and isinstance(src.get('tasks'), dict):
+            sections.append(('tasks of %r' % (wname,), src['tasks'], list(w.get_tasks().item_keys()), False))
+    for label, src, got, top in sections:
+        # what the user wrote: every entry, except the version of the document / the marker of a workbook section
+        written = [k for k, v in src.items() if not (k == 'version' and (top or not isinstance(v, dict)))]
         try:
-            model = ctx.driver().call('schema.members', {'doc': S.enc(src['tasks'])})
+            model = ctx.driver().call('schema.members', {'doc': S.enc(src), 'list': top})
         except S.Untransportable:
             continue
-        ctx.evaluated('taskskept', [text_hash(text), wname], nontrivial=len(written) > 1)
+        ctx.evaluated('taskskept', [text_hash(text), label], nontrivial=len(written) > 1)
+        ctx.count('taskskept', 'section:' + label.split(' ')[0])
         if model != got:
-            ctx.disagree('taskskept', {'text': text, 'workflow': wname}, model, got)
+            ctx.disagree('taskskept', {'text': text, 'section': label}, model, got)
         lost = [k for k in written if k not in got]
         if lost:
             ctx.count('taskskept', 'lost:%s' % ','.join(map(str, lost)))
-            ctx.violation('accepted workflow %r: the task(s) %r written in `tasks` are not part of the specification '
-                          '(never validated, never run); tasks of the specification: %r' % (wname, lost, got),
+            ctx.violation('accepted definition, %s: the member(s) %r written in the section are not part of the '
+                          'specification (never validated, never run); members of the specification: %r' % (
+                              label, lost, got),
                           {'kind': 'doc', 'entry': entry, 'text': text, 'origin': origin},
                           {'kind': 'accepted-task-lost', 'names': sorted(map(str, lost))})
 
